@@ -370,7 +370,8 @@ func (ch *channel) receivedSegData(rsd recSegData) {
 					if err != nil {
 						log.Error("failed to write MPD", "err", err)
 					}
-					maxNrBufSegs := ch.timeShiftBufferDepthS*ch.masterTimescale/ch.masterSegDuration + 2
+					// The product does not fit 32 bits for long buffers / high timescales
+					maxNrBufSegs := uint32(uint64(ch.timeShiftBufferDepthS)*uint64(ch.masterTimescale)/uint64(ch.masterSegDuration)) + 2
 					ch.mu.Lock()
 					ch.maxNrBufSegs = maxNrBufSegs // read by upload handlers when deleting old segments
 					ch.mu.Unlock()
